@@ -1214,8 +1214,152 @@ func firstDiffLine(a, b string, first bool) string {
 	return "(lengths differ)"
 }
 
+// c18CrossValue: histories over DIFFERENT values of one type, and results against each other.
+//   - independence: Marshal / String / decode of a value B give the same answer before and after the same
+//     operations ran on another value A (a scratch buffer or cache that leaks content between values);
+//   - earlier results: what DestinationSSRC and Marshal returned for a receiver stays intact when the
+//     receiver is decoded into again (whatever decoding into a used receiver means otherwise);
+//   - disjointness: two decodes of equal bytes from different buffers, two Marshal results, and the result
+//     of the package-level Marshal and its argument share no memory (interned or pooled sub-objects).
+func c18CrossValue(c *bx.Ctx) {
+	c.Space("cross-value-histories")
+	byType := map[string][]ref.Builder{}
+	var types []string
+	for _, b := range ref.Builders(c.Thorough()) {
+		if strings.HasPrefix(b.Shape, "big:") {
+			continue
+		}
+		if _, ok := byType[b.Type]; !ok {
+			types = append(types, b.Type)
+		}
+		byType[b.Type] = append(byType[b.Type], b)
+	}
+	maxShapes := 24
+	if c.Thorough() {
+		maxShapes = 48
+	}
+	for _, typ := range types {
+		bs := byType[typ]
+		if len(bs) > maxShapes { // spread over the list (sizes grow along it)
+			var pick []ref.Builder
+			for i := 0; i < maxShapes; i++ {
+				pick = append(pick, bs[i*len(bs)/maxShapes])
+			}
+			bs = pick
+		}
+		e := EntryByName("own:" + typ)
+		enc := make([][]byte, len(bs))
+		encP := make([][]byte, len(bs)) // the same shapes with other numbers in every 32-bit field
+		for i, b := range bs {
+			w, err, pan := safeMarshal(b.Make())
+			if err == nil && pan == "" {
+				enc[i] = append([]byte{}, w...)
+			}
+			pp := b.Make()
+			ref.Perturb(pp)
+			if w, err, pan := safeMarshal(pp); err == nil && pan == "" {
+				encP[i] = append([]byte{}, w...)
+			}
+		}
+		observe := func(p rtcp.Packet, wire []byte) string {
+			var out string
+			_, _ = bx.Guard(func() {
+				m, err := p.Marshal()
+				l, lerr := rtcp.Marshal([]rtcp.Packet{p})
+				out = fmt.Sprintf("%x|%v|%x|%v|%s|%x", m, err, l, lerr, fmt.Sprintf("%+v", p), p.DestinationSSRC())
+				if e != nil && wire != nil {
+					q, derr := e.Fn(append([]byte{}, wire...))
+					out += fmt.Sprintf("|%s|%v", ref.Dump(q), derr)
+				}
+			})
+			return out
+		}
+		for bi, B := range bs {
+			if !c.MineBlock(0) {
+				continue
+			}
+			if c.Expired() {
+				return
+			}
+			pB := B.Make()
+			rp := func(ops, exp, obs string) bx.Replay {
+				return bx.Replay{Entry: "cross-value", Value: typ + "{" + B.Shape + "}", Ops: ops, Expected: bx.ShortStr(exp), Observed: bx.ShortStr(obs)}
+			}
+			// disjointness of results
+			if e != nil && enc[bi] != nil {
+				in1, in2 := append([]byte{}, enc[bi]...), append([]byte{}, enc[bi]...)
+				q1, err1 := e.Fn(in1)
+				q2, err2 := e.Fn(in2)
+				c.T(2)
+				if err1 == nil && err2 == nil {
+					if sh := ref.SharedMemory(q1, q2, in1, in2); sh != "" {
+						c.Report(keyJoin("C18/cross-value", typ, "decoded-values-share-memory"), "two packets decoded from different buffers share memory: "+sh, rp("decode twice from two buffers", "disjoint values", sh))
+					}
+				}
+			}
+			{
+				var m1, m2, l1 []byte
+				_, _ = bx.Guard(func() { m1, _ = pB.Marshal(); m2, _ = pB.Marshal(); l1, _ = rtcp.Marshal([]rtcp.Packet{pB}) })
+				c.T(3)
+				if _, raw := pB.(*rtcp.RawPacket); !raw && len(m1) > 0 && len(m2) > 0 {
+					if sh := ref.SharedMemory(m1, m2); sh != "" {
+						c.Report(keyJoin("C18/cross-value", typ, "marshal-results-share-memory"), "two Marshal results share memory", rp("Marshal twice", "disjoint results", sh))
+					}
+				}
+				if len(l1) > 0 {
+					if sh := ref.SharedMemory(l1, pB); sh != "" {
+						c.Report(keyJoin("C18/cross-value", typ, "marshal-list-result-aliases-packet"), "the result of rtcp.Marshal([p]) shares memory with p", rp("rtcp.Marshal of a one-element list", "a copy", sh))
+					}
+				}
+			}
+			for ai, A := range bs {
+				if ai == bi {
+					continue
+				}
+				c.Add(1)
+				pA := A.Make()
+				x := observe(pB, enc[bi])
+				_ = observe(pA, enc[ai])
+				y := observe(pB, enc[bi])
+				c.T(3)
+				if x != y {
+					c.Report(keyJoin("C18/cross-value", typ, "result-depends-on-other-value"), "Marshal / String / DestinationSSRC / decode of one value answer differently after the same operations ran on another value of the type",
+						rp("observe(B); observe(A = {"+A.Shape+"}); observe(B)", x, y))
+					break
+				}
+				// earlier results of a receiver that is decoded into again
+				if e != nil && e.New != nil && enc[ai] != nil && encP[bi] != nil {
+					r := e.New()
+					var d []uint32
+					var m []byte
+					ok := false
+					_, _ = bx.Guard(func() {
+						if r.Unmarshal(append([]byte{}, enc[ai]...)) == nil {
+							d = r.DestinationSSRC()
+							m, _ = r.Marshal()
+							ok = true
+						}
+					})
+					if ok {
+						dk, mk := append([]uint32{}, d...), append([]byte{}, m...)
+						_, _ = bx.Guard(func() { _ = r.Unmarshal(append([]byte{}, encP[bi]...)) })
+						c.T(2)
+						if !u32eq(d, dk) || !bytes.Equal(m, mk) {
+							c.Report(keyJoin("C18/cross-value", typ, "earlier-result-overwritten-by-decoding-again"), "a slice returned earlier by DestinationSSRC / Marshal changes when the same receiver is decoded into again",
+								rp("Unmarshal(A = {"+A.Shape+"}); keep DestinationSSRC and Marshal results; Unmarshal(B)", fmt.Sprintf("%x %x", dk, mk), fmt.Sprintf("%x %x", d, m)))
+							break
+						}
+					}
+				}
+				c.NT()
+			}
+		}
+	}
+}
+
 func runC18(c *bx.Ctx) {
 	c18ColdAudit(c)
+	c18CrossValue(c)
 	c18SubEncoders(c)
 	c18Purity(c)
 	c18Histories(c)
